@@ -493,8 +493,48 @@ def one_case(ctx, rng, env, stats):
     return True
 
 
+def layer_string_expression_before_a_later_brace(ctx, n):
+    """${string:...} followed, in the same text node or attribute value, by another '}' (of a later interpolation or a
+    literal one): the expression still ends at its own closing brace.  Alternate model of the known mechanism: every
+    candidate text is a valid string: expression, and the engine takes the longest one - up to the LAST '}'."""
+    from chameleon import PageTemplate
+    rng = ctx.rng
+    env = {'t': "it's", 'n': 7, 'v': 'V<&>'}
+
+    def sval(body, where):
+        # value of a string: expression: complete ${name} parts are substituted, an unterminated one stays as it is
+        out = re.sub(r'\$\{(\w+)\}', lambda m: exprs.to_text(env[m.group(1)]), body)
+        return exprs.escape_text(out) if where == 'text' else exprs.escape_attr(out, '"')
+    for case in range(n):
+        where = rng.choice(['text', 'dq'])
+        X = rng.choice(['a', 'Hello ${t}', 'x{y', '${n}-${n}', 'id: ${v}'])
+        L0 = rng.choice(['', 'pre ', '$ '])
+        L1 = rng.choice([' ', ' and ', '-', ' { '])
+        final, fval = rng.choice([('${n}', '7'), ('}', '}'), ('${t}', "it's"), ('${v}', None)])
+        L2 = rng.choice(['', '.', ' end'])
+        if fval is None:
+            fval = 'V&lt;&amp;&gt;'
+        region = L0 + '${string:' + X + '}' + L1 + final + L2
+        ref = L0 + sval(X, where) + L1 + fval + L2
+        alt = L0 + sval(X + '}' + L1 + final[:-1], where) + L2
+        src = '<p>%s</p>' % region if where == 'text' else '<p a="%s">x</p>' % region
+        want = '<p>%s</p>' % ref if where == 'text' else '<p a="%s">x</p>' % ref
+        walt = '<p>%s</p>' % alt if where == 'text' else '<p a="%s">x</p>' % alt
+        try:
+            got = PageTemplate(src)(**env)
+        except Exception as e:
+            got = 'RAISED %s: %s' % (type(e).__name__, str(e).split('\n')[0][:100])
+        ctx.mon('string-expressions-before-a-later-brace')
+        ctx.case(key=('string-then-brace', where, X, L1, final, bool(L0), bool(L2)), nontrivial=True)
+        if got != want:
+            key = 'string-expression-in-an-interpolation-extends-to-the-last-closing-brace' if got == walt else 'output-differs'
+            ctx.violation(key, 'template %r\n   rendered %r\n   expected %r' % (src, got, want),
+                          {'kind': 'doc', 'src': src, 'comments_on': True, 'expected': want, 'expected_log': []})
+
+
 def run(ctx):
     monitors.install(ctx, tokalg=False)
+    layer_string_expression_before_a_later_brace(ctx, 20 if ctx.quick else 300)
     import collections
     rng = ctx.rng
     env = exprs.make_env()
